@@ -305,6 +305,7 @@ class Run2(PL.ImplRun):
         cfg["cache"] = []        # filled from what the real client holds after the initial merge
         self._cfg0 = cfg
         self.req_ctimer = {}     # rid -> cid
+        self._submitting = self._submit_idx = self._nested_idx = None
         self.last_rid = None
         self.acks0_faults = list(cfg.get("acks0_faults", []))
         PL.ImplRun.__init__(self, cfg, self._make_client)
@@ -427,11 +428,28 @@ class Run2(PL.ImplRun):
 
     def close_step(self):
         if self.step_open:
+            if self._submitting is not None and self._submit_idx is None:
+                self._submit_idx = len(self.trace)
             self.events.append(self.cur_event)
             self.trace.append(sorted(self.cur))
             self.idle_after.append(None)
             self.cur = None
             self.step_open = False
+
+    def emit(self, o):
+        # The Deferred of the send being submitted may fire INSIDE send_messages, but the driver can attach its
+        # observer only when send_messages has returned.  If results crossed the boundary in between (new steps were
+        # opened), the outcome belongs to the step in which it really fired: the step of the send if the request
+        # never made it into a produce request (failed partition lookup), else the step of the first result delivered.
+        if o[0] == 7 and o[1] == self._submitting and self._submit_idx is not None:
+            sid = o[1]
+            sent = any(m // MID == sid for (stp, _a, pls) in self.produce_log if stp == self._submit_idx
+                       for (_t, _p, mids) in pls for m in mids if m >= 0)
+            target = self._nested_idx if sent else self._submit_idx
+            if target is not None and target < len(self.trace):
+                self.trace[target] = sorted(self.trace[target] + [[int(x) for x in o]])
+                return
+        PL.ImplRun.emit(self, o)
 
     def value_of_result(self, r):
         """what crossed the boundary as the result of send_produce_request -> contract value"""
@@ -480,6 +498,8 @@ class Run2(PL.ImplRun):
                 mev = [9, 0 if self.real._api_versions == 0 else 1]
         self.close_step()
         self.sync_meta()
+        if self._submitting is not None and self._nested_idx is None:
+            self._nested_idx = len(self.trace)
         self.open_step(mev)
         return r
 
@@ -494,7 +514,10 @@ class Run2(PL.ImplRun):
             self.sync_meta()
             self.cur = []
             self.step_open = True
+            self._submitting = ev[1] if op in ("send", "badsend") else None
+            self._submit_idx = self._nested_idx = None
             PL.ImplRun._apply(self, ev)       # sets self.cur_event before it calls into the producer
+            self._submitting = None
             self.close_step()
         elif op == "stop":
             self.sync_meta()
